@@ -22,9 +22,12 @@ TRUSTED = [
     "raw h, w per step) are recorded by shadowing `round` in the collator modules; uniform draws are shipped as exact "
     "rationals of their binary64 value; int(u * num_patches) is modelled as exact floor (binary64 product rounding "
     "ignored)",
-    "oracle contracts: rng.integers(lo,hi) in [lo,hi); rng.uniform(lo,hi) <= hi <= upper mask ratio (the float32 "
-    "linspace bins of the real code can exceed the ratio by 1e-7 relative; harmless for ratios with small "
-    "denominators, which is what is generated); rng.shuffle applies a permutation; torch.Generator().manual_seed(s) "
+    "oracle contracts (Spec.draw_ok, also checked on every recorded draw by the Python oracle): rng.integers(lo,hi) in "
+    "[lo,hi); lo <= rng.uniform(lo,hi) <= hi; int(round(sqrt(..))) >= 0; rng.shuffle applies a permutation.  The "
+    "float32 torch.linspace the ratio bins come from is not modelled: the model only checks, on every ratio draw, that "
+    "the upper bound passed to the generator is <= float32(mask_ratio_max) (shipped as the exact rational dRn/dRd; a "
+    "violation is a Mismatch = DRIFT), and the Coq cap is floor(float32(ratio_max) * patches); the Python oracle uses "
+    "the exact configured rational (the two differ by <= 1e-7 relative).  torch.Generator().manual_seed(s) "
     "+ torch.rand is a deterministic function of s (the block-size oracle is a function of the step; observed: two "
     "instances with different rngs/batches agree step by step)",
     "torch tensor plumbing (zeros, slicing assignment, nonzero, default_collate, concat, stack) is modelled on lists, "
@@ -38,8 +41,10 @@ ASSUMPTIONS = [
     "small denominators; grid 2..20 x 2..20; min_num_patches integer >= 0",
     "I-JEPA: batch >= 1, num_enc_masks >= 1, num_pred_masks >= 1, tries >= 1, min_keep >= 0, grid 2..20 x 2..20; "
     "encoder/predictor disjointness only claimed where enc_area - n_pred*pred_area > min_keep for the sizes of that "
-    "step; outside that premise the real loop may relax the constraint or never end (capped and classified RUNAWAY, "
-    "not claimed)",
+    "step; outside that premise the real loop may relax the constraint (overlap possible, not claimed) and it never "
+    "ends when the encoder block has <= min_keep patches (draws capped, classified RUNAWAY, the calls before it are "
+    "still evaluated; a RUNAWAY with a larger encoder block is reported as a violation, cf. theorem "
+    "ijepa_constrained_ends_when_block_exceeds_min_keep)",
 ]
 RULE = ("60% DINO / 40% I-JEPA. DINO: grid HxW in 2..20 (not nec. square), views 1..3, batch 1..6, mask_prob from "
         "{0,.1,.25,.3,.5,.75,.9,1}, ratio pairs from a rational list, min_num_patches 0..9, aspect bounds, x as tensor or "
@@ -432,6 +437,8 @@ def oracle_dino(case, obs):
             return f"oracle contract: uniform outside its bounds {ev}"
         if ev[0] == "P" and sorted(ev[1]) != list(range(B * V)):
             return f"oracle contract: shuffle is not a permutation {ev[1]}"
+        if ev[0] == "R" and ev[1] < 0:
+            return f"oracle contract: int(round(sqrt(..))) returned {ev[1]}"
     return None
 
 
@@ -472,7 +479,15 @@ def oracle_ijepa(case, obs):
             if call["status"] == "RUNAWAY":
                 if sizes is not None and in_premise(case, sizes):
                     return f"{where}: constrained sampling does not end although the premise holds (sizes {sizes})"
-                return None if name == "twin" else None
+                if sizes is not None and sizes[2] * sizes[3] > case["min_keep"]:
+                    # after num_pred_masks * tries rejections no complement is applied any more and the whole
+                    # encoder block (more than min_keep patches) is accepted: <= nP*tries + 1 iterations per mask,
+                    # far below MAX_DRAWS_IJEPA for every generated configuration
+                    return (f"{where}: constrained sampling does not end although the fully relaxed encoder block "
+                            f"{sizes[2]}x{sizes[3]} has more than min_keep={case['min_keep']} patches")
+                # encoder block area <= min_keep: `len(mask) > min_keep` can never hold, the real loop never ends
+                # (outside the property's premise, not claimed); later calls of this instance are not made
+                break
             if call["status"] != "ok":
                 return f"{where}: I-JEPA collator did not return: {call['status']}"
             if not call["passthrough"]:
@@ -526,6 +541,8 @@ def oracle_ijepa(case, obs):
             for ev in call["trace"]:
                 if ev[0] == "I" and not ev[1] <= ev[3] < ev[2]:
                     return f"oracle contract: integers({ev[1]},{ev[2]}) returned {ev[3]}"
+                if ev[0] == "R" and ev[1] < 0:
+                    return f"oracle contract: int(round(sqrt(..))) returned {ev[1]}"
     return None
 
 
@@ -543,8 +560,17 @@ def coq_applicable(case, obs):
         return False
     if case["kind"] == "dino":
         return obs["status"] == "ok" and obs.get("mask") is not None
-    calls = obs["calls"] + obs["twin"]
-    return bool(calls) and all(c["status"] == "ok" for c in calls)
+    # calls are rendered up to the first one that did not return (RUNAWAY outside the premise ends an instance)
+    return any(c["status"] == "ok" for c in _ok_prefix(obs["calls"]) + _ok_prefix(obs["twin"]))
+
+
+def _ok_prefix(calls):
+    out = []
+    for c in calls:
+        if c["status"] != "ok":
+            break
+        out.append(c)
+    return out
 
 
 def coq_trace(trace, skip_rounds=False):
@@ -581,7 +607,7 @@ def coq_case(case, obs):
     for name in ("calls", "twin"):
         step = -1
         rendered = []
-        for call in obs[name]:
+        for call in _ok_prefix(obs[name]):
             if call["ctx"]:
                 step += 1
                 _, raw = ijepa_sizes(case, call)
